@@ -3,6 +3,7 @@ package harness
 import (
 	"errors"
 	"fmt"
+	"math"
 	"os"
 	"path/filepath"
 	"runtime/debug"
@@ -473,7 +474,8 @@ func (r *redisRunner) probeAll() *kvh.Fail {
 var (
 	c19Keys   = [][]byte{[]byte("a"), []byte("b"), []byte("ab"), []byte("c")}
 	c19Fields = [][]byte{[]byte("f1"), []byte("f2"), []byte("x"), {0x00, 0xff}}
-	c19Scores = []float64{-2.5, 0, 0.5, 1, 3, 100, 1e10, -0.001}
+	// distinct scores, among them pairs that differ only in the last bits (an update must still be an update)
+	c19Scores = []float64{-2.5, 0, 0.5, math.Nextafter(0.5, 1), 1, 3, 100, 100.00000001, 1e10, 1e10 + 1, -0.001, 1.7e12, 1.70000000025e12}
 	c19Cmds   = []string{"set", "get", "hset", "hget", "hdel", "sadd", "sismember", "srem", "lpush", "rpush", "lpop", "rpop", "zadd", "zscore", "del", "type", "restart",
 		"hset", "sadd", "lpush", "rpush", "zadd", "lpop", "rpop", "hdel", "srem"}
 )
